@@ -137,7 +137,37 @@ fn union_variant_matches_scalar_arg(
 }
 
 fn union_contains(union: &UnionTypeAnnotationDeclaration, potential_member: &UnionVariant) -> bool {
-    union.variants.contains(potential_member)
+    // A list variant embeds the source location of its annotation. Two annotations written in
+    // different places must still be the same type, so compare the types, not the locations.
+    union
+        .variants
+        .iter()
+        .any(|variant| union_variants_are_same_type(variant, potential_member))
+}
+
+fn union_variants_are_same_type(a: &UnionVariant, b: &UnionVariant) -> bool {
+    match (a, b) {
+        (UnionVariant::Scalar(a), UnionVariant::Scalar(b)) => a == b,
+        (UnionVariant::Plural(a), UnionVariant::Plural(b)) => {
+            annotations_are_same_type(a.item.reference(), b.item.reference())
+        }
+        _ => false,
+    }
+}
+
+fn annotations_are_same_type(a: &TypeAnnotationDeclaration, b: &TypeAnnotationDeclaration) -> bool {
+    match (a, b) {
+        (TypeAnnotationDeclaration::Scalar(a), TypeAnnotationDeclaration::Scalar(b)) => a == b,
+        (TypeAnnotationDeclaration::Plural(a), TypeAnnotationDeclaration::Plural(b)) => {
+            annotations_are_same_type(a.item.reference(), b.item.reference())
+        }
+        (TypeAnnotationDeclaration::Union(a), TypeAnnotationDeclaration::Union(b)) => {
+            a.nullable == b.nullable
+                && a.variants.len() == b.variants.len()
+                && a.variants.iter().all(|variant| union_contains(b, variant))
+        }
+        _ => false,
+    }
 }
 
 pub fn value_satisfies_type<TCompilationProfile: CompilationProfile>(
